@@ -686,7 +686,10 @@ def xvalue(value):
             return float(value)
         except (ValueError, TypeError):
             from .date import xdate, _text2datetime, xtime
-            value = _text2datetime(value)
+            try:
+                value = _text2datetime(value)
+            except AssertionError:
+                raise ValueError
             return xdate(*value[:3]) + xtime(*value[3:])
     elif isinstance(value, (np.bool_, bool)):
         raise ValueError
